@@ -194,10 +194,12 @@ def make_posts_reclaim(ex):
 
 # ---- C18: blob identity depends only on content ------------------------------------------------------------
 
-def ob_tx_write(ex, nchunks=2):
-    """Transaction::write called nchunks times with chunks of arbitrary (symbolic) lengths: the byte
-    stream given to the hasher == the byte stream given to the staging writer == the chunks in
-    order, and size == sum of the lengths"""
+def ob_tx_write(ex, nchunks=2, abandon_first=False):
+    """Transaction::write called nchunks times with chunks of arbitrary (symbolic) lengths, then the real commit: the byte
+    stream the hash is finalised over == the byte stream in the staging file before its rename == the chunks in
+    order, and size == sum of the lengths.  abandon_first (C13): a transaction on the same store is written to and then
+    DROPPED without finish first; whatever it leaves behind in shared in-memory state (a buffer pool, a cache) must
+    not reach the transaction that follows."""
     from exec import State, VRef, VStruct, VVec, VUnit
     from world import SystemWorld, find_fn
     import entry as E
@@ -205,9 +207,40 @@ def ob_tx_write(ex, nchunks=2):
     q0 = ex.queries
     st = State()
     sw = SystemWorld(ex, st, U=1, HU=1, N=2, intents="empty")
+    if not abandon_first:
+        return _tx_write_from(ex, sw, st, nchunks, t0, q0, "")
+    k0 = sw.sym_key(st, "abandoned_key")
+    starts = []
+    for tx0, stv, _sz0 in E.real_tx(ex, sw, st, k0, "abandoned", pending=True):
+        nxt0 = []
+        for s2 in ex.drop_value(stv, tx0, VRef(stv.alloc(tx0))):
+            nxt0 += ex.run(s2) if s2.frames else [s2]
+        for s2 in nxt0:
+            if s2.status in ("unsupported", "panic", "cut"):
+                return Obligation("abandoned transaction, then a put", ["C13"], "inconclusive" if s2.status != "panic" else "violated",
+                                  time.time() - t0, f"dropping the abandoned transaction: {s2.status}: {s2.note}", None, ex.queries - q0, 0)
+            s2.status = "running"
+            s2.retval = None
+            del s2.trace[:]
+            starts.append(s2)
+    last = None
+    for s2 in starts:
+        last = _tx_write_from(ex, sw, s2, nchunks, t0, q0, "a transaction written to and dropped without finish, then ")
+        if last.status != "discharged":
+            return last
+    if last is None:
+        return Obligation("abandoned transaction, then a put", ["C13"], "inconclusive", time.time() - t0, "no start state", None, ex.queries - q0, 0)
+    last.detail += f" ({len(starts)} ways the abandoned transaction may have buffered its bytes)"
+    return last
+
+
+def _tx_write_from(ex, sw, st, nchunks, t0, q0, prefix):
+    from exec import State, VRef, VStruct, VVec, VUnit
+    from world import SystemWorld, find_fn
+    import entry as E
     (tx, st), = E.mk_tx(ex, sw, st, pending=False)  # a fresh transaction exactly as Transaction::new builds it
     st.meta.pop("hashed-content", None)
-    I_HASHER, I_SIZE, I_WRITER = E.tx_field(ex, "hasher"), E.tx_field(ex, "size"), E.tx_field(ex, "writer")
+    I_SIZE = E.tx_field(ex, "size")
     tx.fields[I_SIZE] = VInt(0, "u64")
     txref = VRef(st.alloc(tx))
     fn = find_fn(ex, "::write", "transaction::")
@@ -230,7 +263,7 @@ def ob_tx_write(ex, nchunks=2):
                 elif f.status == "cut":
                     pass  # beyond the unrolling bound: stated as outside the claim
         states = nxt
-    name = f"Transaction::write x{nchunks} then finish: hashed stream == staged stream == content; size == total length"
+    name = prefix + f"Transaction::write x{nchunks} then finish: hashed stream == staged stream == content; size == total length"
     for f in states:
         if f.status == "unsupported":
             return Obligation(name, ["C18"], "inconclusive", time.time() - t0, f.note, None, ex.queries - q0, len(states))
@@ -350,14 +383,17 @@ def ob_tx_write(ex, nchunks=2):
             n += 1
             if isinstance(post, bool):
                 if not post:
-                    return Obligation(name, ["C18"], "violated", time.time() - t0, lab, None, ex.queries - q0, len(states))
+                    r0, m0 = ex.model_of(f.pc)
+                    cex0 = {"chunk_lens": [m0.eval(x, model_completion=True).as_long() for x in lens] if m0 is not None else [3],
+                            "abandon_first": bool(prefix), "detail": "bytes that are not part of the written chunks reach the hash or the staging file"}
+                    return Obligation(name, ["C18"], "violated", time.time() - t0, lab, cex0, ex.queries - q0, len(states))
                 continue
             r, m = ex.model_of(f.pc, z3.Not(post))
             if r == z3.sat:
                 import os
                 if os.environ.get("VERIF_DEBUG"):
                     print("DEBUG hashed", hashed, "written", written, "lens", lens, "th", th, "want", want)
-                cex = {"chunk_lens": [m.eval(x, model_completion=True).as_long() for x in lens]}
+                cex = {"chunk_lens": [m.eval(x, model_completion=True).as_long() for x in lens], "abandon_first": bool(prefix)}
                 return Obligation(name, ["C18"], "violated", time.time() - t0, "post-condition fails: " + lab, cex, ex.queries - q0, len(states))
     if not states:
         return Obligation(name, ["C18"], "inconclusive", time.time() - t0, "no completed path", None, ex.queries - q0, 0)
